@@ -489,9 +489,16 @@ impl Memfs {
                 dst_root.mash(src.path().trim_prefix(src_root.path()))
             };
 
-            // Copying onto an existing link writes through to what it points to
+            // Copying onto an existing link writes through to what it points to, except for a
+            // directory: a link is not a directory and merging into whatever it leads to would
+            // write outside of the destination
             let dst_path = match guard.get_entry(&dst_path) {
-                Some(x) if x.is_symlink() && !src.is_symlink() => x.alt_buf(),
+                Some(x) if x.is_symlink() && !src.is_symlink() => {
+                    if self._clone_entry(guard, src.path())?.is_dir() {
+                        return Err(PathError::is_not_dir(&dst_path).into());
+                    }
+                    x.alt_buf()
+                },
                 _ => dst_path,
             };
 
